@@ -197,7 +197,7 @@ func runC10(tier string, sum *props.SchedSummary) []vs.Result {
 	}
 	bound, budget := 3, 200000
 	if tier == "thorough" {
-		bound, budget = 21, 5000000 // 21 = the maximal number of scheduling points: unbounded
+		bound, budget = 5, 1000000
 	}
 	// two closed sub-scenarios of the same bodies keep every bound complete:
 	// A = the three registry threads, B = the registration with the two crypto threads
@@ -283,9 +283,9 @@ func runC16(tier string, sum *props.SchedSummary) []vs.Result {
 	kinds := c16Kinds()
 	names := []string{"join-1.0", "join-1.1", "rejoin-0", "unknown-device", "bad-mic"}
 	var results []vs.Result
-	bound, budget := 2, 20000
+	bound, budget := 3, 20000
 	if tier == "thorough" {
-		bound, budget = 4, 400000
+		bound, budget = 40, 60000 // more than the number of scheduling points: every interleaving, capped per pair by the budget
 	}
 	seen := map[string]bool{}
 	interleavedAll := true
